@@ -331,7 +331,7 @@ def run_shard(desc, seed, tier, H):
                 if pairs and not adv:
                     i, j = data.draw(st.sampled_from(pairs))
                 else:
-                    i, j = draw_line(), draw_line()
+                    i, j = draw_line(lambda th: th.prop.is_implies()), draw_line()
                     if i is None:
                         continue
                 try_step({'rule': 'implies_elim', 'args': None, 'prevs': [i, j]})
@@ -348,7 +348,8 @@ def run_shard(desc, seed, tier, H):
                 if pairs and not adv:
                     i, j = data.draw(st.sampled_from(pairs))
                 else:
-                    i, j = draw_line(), draw_line()
+                    # near miss: two equations whose middle terms differ
+                    i, j = draw_line(lambda th: th.prop.is_equals()), draw_line(lambda th: th.prop.is_equals())
                     if i is None:
                         continue
                 try_step({'rule': 'transitive', 'args': None, 'prevs': [i, j]})
@@ -397,7 +398,8 @@ def run_shard(desc, seed, tier, H):
                 if pairs and not adv:
                     i, j = data.draw(st.sampled_from(pairs))
                 else:
-                    i, j = draw_line(), draw_line()
+                    i, j = draw_line(lambda th: th.prop.is_equals() and th.prop.lhs.get_type().is_tconst()
+                                     and th.prop.lhs.get_type().name == 'bool'), draw_line()
                     if i is None:
                         continue
                 try_step({'rule': 'equal_elim', 'args': None, 'prevs': [i, j]})
